@@ -125,6 +125,45 @@ Proof.
   split; [exact Ec|]. split; reflexivity.
 Qed.
 
+Lemma rmap_length {X Y} (f : X -> res Y) l : forall ys, rmap f l = inl ys -> length ys = length l.
+Proof.
+  induction l as [|x r IH]; intros ys H; cbn [rmap] in H.
+  - injection H as <-. reflexivity.
+  - destruct (f x) as [y|]; cbn [rbind] in H; [|discriminate].
+    destruct (rmap f r) as [ys'|]; cbn [rbind ret] in H; [|discriminate].
+    injection H as <-. cbn. f_equal. apply IH. reflexivity.
+Qed.
+
+(* the whole statement list of a class statement: creation, the loader (class body run against a dictionary), installation of
+   the dictionary's items on the created class, and only THEN the decorators - the last listed first, each applied to the
+   class name as it is bound at that moment and rebinding it *)
+Theorem classdef_decorators_last : forall cfg c p name ln bases kws body decs es,
+  lower_stmt cfg c p (SClassDef name ln bases kws body decs) = inl es ->
+  exists create loader_body load decorated,
+    get_load_name (c_nsp c) [] false name = inl load /\
+    rmap (fun d => let! d' := tr (c_nsp c) d in get_assign (c_nsp c) name (call d' [load])) (rev decs) = inl decorated /\
+    length decorated = length decs /\
+    es = [create;
+          NamedExpr (ol "loader" (path_str p)) loader_body;
+          ListComp (call (Name "setattr") [load; Name (ol "key" (path_str p)); Name (ol "value" (path_str p))])
+                   [(ETuple [Name (ol "key" (path_str p)); Name (ol "value" (path_str p))],
+                     call (Attribute (call (Name (ol "loader" (path_str p))) []) "items") [], [], false)]]
+         ++ decorated.
+Proof.
+  intros cfg c p name ln bases kws body decs es H. cbn [lower_stmt] in H.
+  destruct (find_inner (c_nsp c) name ln) as [cn|] eqn:Ef; [|discriminate].
+  destruct (n_kind cn) eqn:Ek; try discriminate.
+  destruct (lower_block cfg _ _ p 0 0 body) as [b'|]; cbn [rbind] in H; [|discriminate].
+  destruct (rmap (tr (c_nsp c)) bases) as [bs|] eqn:Eb; cbn [rbind] in H; [|discriminate].
+  destruct (rmap _ kws) as [ks|] eqn:Ekw; cbn [rbind] in H; [|discriminate].
+  match type of H with (let! create := ?g in _) = _ => destruct g as [cr|] eqn:Ec end; cbn [rbind] in H; [|discriminate].
+  destruct (get_load_name (c_nsp c) [] false name) as [ld|] eqn:El; cbn [rbind] in H; [|discriminate].
+  match type of H with (let! decorated := ?g in _) = _ => destruct g as [dec|] eqn:Ed end; cbn [rbind ret] in H; [|discriminate].
+  injection H as <-.
+  eexists cr, _, ld, dec. split; [reflexivity|]. split; [exact Ed|]. split; [|reflexivity].
+  apply rmap_length in Ed. rewrite Ed, rev_length. reflexivity.
+Qed.
+
 Example members_example :
   run_stores nat [("a", 1); ("b", 2); ("a", 3); ("c", 4); ("b", 5)] [] = [("a", 3); ("b", 5); ("c", 4)].
 Proof. reflexivity. Qed.
